@@ -275,17 +275,25 @@ Definition update_ok (w : window) (src srcSize : Z) (force : bool) : bool :=
 Definition ldm_block_ok (l : option ldmState) (p : Z) : bool :=
   match l with Some s => exact_idx (ldm_window s) p | None => true end.
 
-Fixpoint frame_blocks_ok (frequently : bool) (h : hstate) (ip : Z) (blocks : list Z) : bool :=
+(* the observer is split in the part about the match-state window and the part about the LDM window *)
+Fixpoint frame_blocks_ok_ms (frequently : bool) (h : hstate) (ip : Z) (blocks : list Z) : bool :=
   match blocks with
   | [] => true
   | bs :: rest =>
       let h' := frame_block frequently h ip bs in
       exact_idx (ms_window (h_ms h')) ip && exact_idx (ms_window (h_ms h')) (ip + bs)
-      && ldm_block_ok (h_ldm h') (ip + bs)
-      && frame_blocks_ok frequently h' (ip + bs) rest
+      && frame_blocks_ok_ms frequently h' (ip + bs) rest
   end.
 
-Definition step_ok (frequently : bool) (h : hstate) (o : op) : bool :=
+Fixpoint frame_blocks_ok_ldm (frequently : bool) (h : hstate) (ip : Z) (blocks : list Z) : bool :=
+  match blocks with
+  | [] => true
+  | bs :: rest =>
+      let h' := frame_block frequently h ip bs in
+      ldm_block_ok (h_ldm h') (ip + bs) && frame_blocks_ok_ldm frequently h' (ip + bs) rest
+  end.
+
+Definition step_ok_ms (frequently : bool) (h : hstate) (o : op) : bool :=
   match o with
   | OpBegin p hashLog3 ldm forced lit ldmLit loadedDictSize dict =>
       let w := ms_window (h_ms h) in
@@ -293,27 +301,49 @@ Definition step_ok (frequently : bool) (h : hstate) (o : op) : bool :=
       (doReset || exact_idx w (nextSrc w))
       && match dict with
          | None => true
-         | Some d =>
-             let h' := step frequently h o in
-             exact_idx (ms_window (h_ms h')) (d_src d + d_size d)
-             && ldm_block_ok (h_ldm h') (d_src d + d_size d)
+         | Some d => exact_idx (ms_window (h_ms (step frequently h o))) (d_src d + d_size d)
          end
   | OpAttach _ _ => true
   | OpContinue src blocks =>
       let srcSize := sumZ blocks in
       if srcSize =? 0 then true
       else update_ok (ms_window (h_ms h)) src srcSize (h_forceNC h)
-           && match h_ldm h with Some l => update_ok (ldm_window l) src srcSize false | None => true end
-           && frame_blocks_ok frequently (continue_update h src srcSize) src blocks
+           && frame_blocks_ok_ms frequently (continue_update h src srcSize) src blocks
   | OpBlockMode src size =>
       if size =? 0 then true
       else update_ok (ms_window (h_ms h)) src size (h_forceNC h)
-           && match h_ldm h with Some l => update_ok (ldm_window l) src size false | None => true end
            && let h' := step frequently h o in
               exact_idx (ms_window (h_ms h')) src && exact_idx (ms_window (h_ms h')) (src + size)
   | OpFinder _ _ => true
   | OpLdmFinder _ => true
   | OpCopyCDict _ _ _ => true
+  end.
+
+Definition step_ok_ldm (frequently : bool) (h : hstate) (o : op) : bool :=
+  match o with
+  | OpBegin p hashLog3 ldm forced lit ldmLit loadedDictSize dict =>
+      match dict with
+      | None => true
+      | Some d => ldm_block_ok (h_ldm (step frequently h o)) (d_src d + d_size d)
+      end
+  | OpContinue src blocks =>
+      let srcSize := sumZ blocks in
+      if srcSize =? 0 then true
+      else match h_ldm h with Some l => update_ok (ldm_window l) src srcSize false | None => true end
+           && frame_blocks_ok_ldm frequently (continue_update h src srcSize) src blocks
+  | OpBlockMode src size =>
+      if size =? 0 then true
+      else match h_ldm h with Some l => update_ok (ldm_window l) src size false | None => true end
+  | _ => true
+  end.
+
+Definition step_ok (frequently : bool) (h : hstate) (o : op) : bool :=
+  step_ok_ms frequently h o && step_ok_ldm frequently h o.
+
+Fixpoint run_ok_ms (frequently : bool) (h : hstate) (ops : list op) : bool :=
+  match ops with
+  | [] => true
+  | o :: rest => step_ok_ms frequently h o && run_ok_ms frequently (step frequently h o) rest
   end.
 
 Fixpoint run_ok (frequently : bool) (h : hstate) (ops : list op) : bool :=
